@@ -33,8 +33,13 @@ theorem intersect_preserves (as bs : List Addr) (ha : ∀ a ∈ as, a.v6 = false
 
 /-- One supported proto rule: every generated HNS rule carries the rule's action and direction, and
 a packet matches SOME generated rule iff it matches the proto rule — whatever the chunk size, i.e.
-"including when addresses or ports are split across several rules". -/
-theorem rule_flattening (s : IPSets) (hs : s.wf) (hipp : s.ipportOK) (r : Rule) (inbound : Bool)
+"including when addresses or ports are split across several rules".
+
+PARTIAL: `supportedIn` restricts an (egress) rule on a destination Service (IP-port set) to carry no
+nets / IP sets (protocol and source ports are honoured since /repo commit 44f8f9c).  SOURCE nets and
+IP sets next to a Service are legal in the v3 API but still ignored by the converter, so without the
+restriction the statement is false of the current code: `hns_verdict_false_service_source`. -/
+theorem rule_flattening_partial (s : IPSets) (hs : s.wf) (hipp : s.ipportOK) (r : Rule) (inbound : Bool)
     (hsup : r.supportedIn inbound) (n : Nat) (hn : 0 < n) (pid : String) (p : Pkt) :
     (∀ h ∈ hr s pid r inbound n, h.action = ruleAction r ∧ h.inbound = inbound) ∧
     (hr s pid r inbound n).any (·.matches p) = r.matches s p :=
@@ -46,11 +51,18 @@ theorem priorities_good (sets : List (Option (List HRule))) (inbound eotDrop : B
     good (getPolicySetRules sets inbound eotDrop) :=
   (getPolicySetRules_spec sets inbound eotDrop ⟨0, 0, 0, 0, 0⟩).1
 
-/-- MAIN THEOREM.  For every IP set contents, every list of policy sets whose rules use supported
-criteria only, both directions, both end-of-tier actions, every chunk size and every packet:
+/-- MAIN THEOREM (partial).  For every IP set contents, every list of policy sets whose rules use
+supported criteria only, both directions, both end-of-tier actions, every chunk size and every packet:
 the HNS rules evaluated by priority have at least one decisive rule, and EVERY decisive rule
-(whatever HNS's tie-break) carries exactly the verdict of the policy semantics. -/
-theorem hns_verdict (s : IPSets) (hs : s.wf) (hipp : s.ipportOK) (sets : List (String × PolicySet))
+(whatever HNS's tie-break) carries exactly the verdict of the policy semantics.
+
+PARTIAL because `PolicySet.supported` (via `Rule.supportedIn`) demands that an egress rule matching
+a destination Service (IP-port set) carries no source nets / IP sets, although those are criteria the
+dataplane supports and the v3 API accepts next to a Service: the converter ignores them
+(`hns_verdict_false_service_source`, known finding service-rule-source-ignored).  Protocol and source
+ports on such a rule ARE covered (fixed in /repo commit 44f8f9c).  The other restrictions in
+`supported` (at most one IP set per side, known protocol name) are guaranteed upstream. -/
+theorem hns_verdict_partial (s : IPSets) (hs : s.wf) (hipp : s.ipportOK) (sets : List (String × PolicySet))
     (hsup : ∀ x ∈ sets, x.2.supported) (n : Nat) (hn : 0 < n) (d eot : Bool) (p : Pkt) :
     let rules := getPolicySetRules (sets.map fun x => some (x.2.members s x.1 n)) d eot
     hnsActions rules p ≠ [] ∧ ∀ a ∈ hnsActions rules p, a = tierVerdict s (sets.map (·.2)) d eot p := by
@@ -83,7 +95,7 @@ theorem psW_supported : psW.supported := by
     · exact ⟨⟨Or.inl rfl, rfl, rfl, rfl, rfl, rfl, by decide, trivial, by decide, by decide⟩, Or.inl rfl⟩
   · intro r hr; simp [psW] at hr
 
-/-- The hypotheses of `hns_verdict` hold for a non-trivial instance, and its verdicts differ by packet. -/
+/-- The hypotheses of `hns_verdict_partial` hold for a non-trivial instance, and its verdicts differ by packet. -/
 example : setsW.wf ∧ setsW.ipportOK ∧ psW.supported ∧
     tierVerdict setsW [psW] true true ⟨6, 167772161, 1000, 167772170, 80⟩ = .block ∧
     tierVerdict setsW [psW] true true ⟨6, 167772165, 1000, 167772170, 80⟩ = .allow ∧
@@ -104,65 +116,108 @@ theorem two_sets_union_not_intersection :
     ⟨6, 167772161, 1000, 167772170, 80⟩, ?_, by decide, by decide⟩
   exact IPSets.wf_of_entries _ (by decide)
 
-/-- COUNTEREXAMPLE (reachable): an egress rule that names a destination Service (IP-port set) AND a
-protocol.  The converter returns early from the DstIpPortSetIds branch and never looks at
-`Protocol` (nor at the source ports): `allow udp to service {10.0.0.1 tcp/80}` is programmed as
-"allow tcp/80 to 10.0.0.1", so a TCP packet is allowed where the policy (and the Linux dataplanes)
-deny it.  All criteria used are supported ones, so the unrestricted statement is false. -/
-theorem hns_verdict_false_service_protocol :
+/-- Regression guard for /repo commit 44f8f9c: "allow udp to service {10.0.0.1 tcp/80}" no longer
+lets TCP through (before the fix the rule's protocol was ignored and this packet was allowed). -/
+def psUdpToService : PolicySet :=
+  ⟨[], [{ action := "allow", proto := some (.name "udp"), dstIpPortSets := ["pp"], ruleId := "r1" }]⟩
+
+example : hnsActions (getPolicySetRules [some (psUdpToService.members setsW "p" 4000)] false true)
+    ⟨6, 167772170, 1000, 167772161, 80⟩ = [.block] := by decide
+
+/-- COUNTEREXAMPLE (reachable): an egress rule that names a destination Service AND source nets.
+The DstIpPortSetIds branch of protoRuleToHnsRules never looks at SrcNet / SrcIpSetIds:
+"allow from 10.0.0.0/24 to service {10.0.0.1 tcp/80}" also allows a source outside 10.0.0.0/24.
+All criteria used are supported ones and the v3 API accepts the combination (only DESTINATION nets,
+selectors and ports are forbidden next to destination.services), so the unrestricted statement is
+false of the current code. -/
+theorem hns_verdict_false_service_source :
     ∃ (s : IPSets) (ps : PolicySet) (p : Pkt), s.wf ∧ s.ipportOK ∧
       (∀ r ∈ ps.outRules, r.supported) ∧
       hnsActions (getPolicySetRules [some (ps.members s "p" 4000)] false true) p = [.allow] ∧
       tierVerdict s [ps] false true p = .block :=
-  ⟨setsW, ⟨[], [{ action := "allow", proto := some (.name "udp"), dstIpPortSets := ["pp"], ruleId := "r1" }]⟩,
-    ⟨6, 167772170, 1000, 167772161, 80⟩, setsW_wf, setsW_ipportOK,
+  ⟨setsW, ⟨[], [{ action := "allow", srcNet := [net24], dstIpPortSets := ["pp"], ruleId := "r1" }]⟩,
+    ⟨6, 3232235777, 1000, 167772161, 80⟩, setsW_wf, setsW_ipportOK,
     by
       intro r hr
       simp only [List.mem_singleton] at hr; subst hr
-      exact ⟨Or.inl rfl, rfl, rfl, rfl, rfl, rfl, by decide, by decide, by decide, by decide⟩,
+      exact ⟨Or.inl rfl, rfl, rfl, rfl, rfl, rfl, by decide, trivial, by decide, by decide⟩,
     by decide, by decide⟩
 
+/-! ## Multi-tier flattening (flattener.go, as repaired by /repo commit dea4f0a) -/
 
-/-! ## Multi-tier flattening (flattener.go) -/
+/-- combinePorts computes the intersection: `none` (ErrRuleIsNoOp) iff no port satisfies both lists,
+otherwise the result admits exactly the ports both admit — for ALL port lists. -/
+theorem combinePorts_intersection (a b : List PortRange) (x : Nat) :
+    match combinePorts a b with
+    | some c => portsOK c x = (portsOK a x && portsOK b x)
+    | none => (portsOK a x && portsOK b x) = false := combinePorts_sem a b x
 
-/-- combinePorts with a port-free side never changes the other side (and never panics). -/
-theorem combinePorts_portfree (b : List PortRange) : combinePorts [] b = some b := combinePorts_nil b
-
-/-- FINDING (crash).  Two port lists whose intersection contains the largest port of both:
-combinePorts panics ("bitset said no end of range").  Here: a `pass` rule on port 80 combined with a
-next-tier rule on port 80. -/
-theorem combinePorts_same_max_panics : combinePorts [⟨80, 80⟩] [⟨80, 80⟩] = none := by decide
-
-example : combinePorts [⟨20, 63⟩] [⟨30, 63⟩, ⟨5, 5⟩] = none := by decide
-
-/-- FINDING (fail-open).  Disjoint port lists: the result is `[]` = "" = ANY port, with no error
-(the code tests the bitset's capacity `Len()`, which is never 0, instead of an empty intersection). -/
-theorem combinePorts_disjoint_is_any : combinePorts [⟨20, 20⟩] [⟨30, 31⟩] = some [] := by decide
-
-/-- … and when they overlap properly the result is the exact intersection as maximal runs. -/
+example : combinePorts [⟨80, 80⟩] [⟨80, 80⟩] = some [⟨80, 80⟩] := by decide
+example : combinePorts [⟨20, 20⟩] [⟨30, 31⟩] = none := by decide
 example : combinePorts [⟨1, 2⟩, ⟨10, 15⟩] [⟨2, 2⟩, ⟨12, 16⟩, ⟨55, 55⟩] = some [⟨2, 2⟩, ⟨12, 15⟩] := by decide
 
-/-- The disjoint-ports defect at the level of verdicts: tier 1 = "pass tcp dport 20, else drop",
-tier 2 = "allow tcp dport 30, else drop".  Every TCP packet to port 22 is dropped by tier 1, but the
-flattened rule list allows it. -/
-theorem flatten_false_disjoint_ports :
-    ∃ (t1 t2 : List HRule) (l : List HRule) (p : Pkt),
-      flattenTiers [t1, t2] = some l ∧
-      hnsActions (rewritePriorities l policyRuleMaxPriority) p = [.allow] ∧ mvH p [t1, t2] = some .block :=
-  ⟨[{ action := .pass, inbound := true, proto := 6, lPorts := [⟨20, 20⟩], prio := 1000 }, eotRule true true 1001],
-   [{ action := .allow, inbound := true, proto := 6, lPorts := [⟨30, 30⟩], prio := 1000 }, eotRule true true 1001],
-   [{ action := .allow, inbound := true, proto := 6, prio := 1000 },
-    { action := .block, inbound := true, proto := 6, lPorts := [⟨20, 20⟩], prio := 1001 }, eotRule true true 1001],
-   ⟨6, 1, 1000, 2, 22⟩, by decide, by decide, by decide⟩
+/-- Regression witnesses: what combinePorts did BEFORE the fix (kept as `combinePortsBeforeFix`):
+a panic when both lists share their largest port, and "any port" for disjoint lists.  The oracle
+signatures flatten-panic / flatten-disjoint-ports-any and corpus/C30/flatten-*.ops guard against a
+regression on the real code. -/
+theorem combinePorts_same_max_panicked : combinePortsBeforeFix [⟨80, 80⟩] [⟨80, 80⟩] = none := by decide
+theorem combinePorts_disjoint_was_any : combinePortsBeforeFix [⟨20, 20⟩] [⟨30, 31⟩] = some [] := by decide
 
-/-- MULTI-TIER THEOREM (partial: pass rules carry no port criteria — see the two findings above).
-For tiers generated by GetPolicySetRules from supported rules: flattenTiers does not panic, and the
+/-- The tiers of the former counterexample (tier 1 = "pass tcp dport 20, else drop", tier 2 = "allow
+tcp dport 30, else drop") now flatten to a list that drops TCP to port 22, like the tiers do. -/
+def tierPass20 : List HRule :=
+  [HRule.mk .pass true 6 [] [] [⟨20, 20⟩] [] 1000 "", eotRule true true 1001]
+def tierAllow30 : List HRule :=
+  [HRule.mk .allow true 6 [] [] [⟨30, 30⟩] [] 1000 "", eotRule true true 1001]
+
+example : (flattenTiers [tierPass20, tierAllow30]).map
+    (fun l => hnsActions (rewritePriorities l policyRuleMaxPriority) ⟨6, 1, 1000, 2, 22⟩) = some [.block] := by decide
+
+/-- FLATTENING THEOREM (full, at the level flattener.go works on).  For ANY non-empty list of tiers
+of HNS rules of one direction with IPv4 addresses, each tier containing a rule that matches every
+packet (the end-of-tier rule), with ANY ports on ANY rules: flattenTiers does not panic, and the
 flattened list with rewritten priorities, evaluated by HNS with any tie-break, gives exactly the
-verdict of evaluating the tiers in order (a pass continues in the next tier, a pass in the last tier
-is a drop). -/
-theorem flatten_verdict_partial (s : IPSets) (hs : s.wf) (hipp : s.ipportOK) (hv : s.ipportV4)
+tier-by-tier verdict `mvH` (first match per tier; a pass continues in the next tier; a pass in the
+last tier is a drop). -/
+theorem flatten_verdict (d : Bool) (tiers : List (List HRule)) (hne : tiers ≠ [])
+    (h : ∀ t ∈ tiers, TierOK d t ∧ Total t) (limit : Nat) (p : Pkt) :
+    ∃ l, flattenTiers tiers = some l ∧ ∃ a, mvH p tiers = some a ∧
+      hnsActions (rewritePriorities l limit) p ≠ [] ∧
+      ∀ b ∈ hnsActions (rewritePriorities l limit) p, b = a := by
+  obtain ⟨l, hl, hlf⟩ := flattenTiers_sem d tiers hne h
+  obtain ⟨hg, hfa⟩ := rewritePriorities_sem l limit p
+  -- some rule of the first tier matches, so the cascade yields a verdict
+  have hsome : ∃ a, mvH p tiers = some a := by
+    have : ∀ ts : List (List HRule), ts ≠ [] → (∀ t ∈ ts, Total t) → ∃ a, mvH p ts = some a := by
+      intro ts
+      induction ts with
+      | nil => intro h; exact absurd rfl h
+      | cons t rest ih =>
+        intro _ htot
+        have ht := htot t (by simp) p
+        cases hfa : firstAction t p with
+        | none => rw [hfa] at ht; simp at ht
+        | some a =>
+          cases rest with
+          | nil => exact ⟨if a = .pass then .block else a, by simp [mvH, hfa]⟩
+          | cons t2 r =>
+            obtain ⟨b, hb⟩ := ih (by simp) (fun x hx => htot x (by simp [hx]))
+            cases a
+            · exact ⟨.allow, by simp [mvH, hfa]⟩
+            · exact ⟨.block, by simp [mvH, hfa]⟩
+            · exact ⟨b, by simp [mvH, hfa, hb]⟩
+    exact this tiers hne (fun t ht => (h t ht).2)
+  obtain ⟨a, ha⟩ := hsome
+  refine ⟨l, hl, a, ha, ?_⟩
+  have : firstAction (rewritePriorities l limit) p = some a := by rw [hfa, hlf p, ha]
+  exact first_match_decides _ hg p _ this
+
+/-- … composed with policysets: for tiers generated by GetPolicySetRules from supported rules the
+verdict is the policies' tier-by-tier verdict.  PARTIAL only through `PolicySet.supported` (Service
+rules without source nets / IP sets, see `hns_verdict_partial`); no restriction on ports any more. -/
+theorem flatten_policy_verdict_partial (s : IPSets) (hs : s.wf) (hipp : s.ipportOK) (hv : s.ipportV4)
     (ts : List TierSpec) (hne : ts ≠ [])
-    (hsup : ∀ t ∈ ts, ∀ x ∈ t.1, x.2.supported) (hpf : ∀ t ∈ ts, ∀ x ∈ t.1, x.2.passPortFree)
+    (hsup : ∀ t ∈ ts, ∀ x ∈ t.1, x.2.supported)
     (n : Nat) (hn : 0 < n) (d : Bool) (limit : Nat) (p : Pkt) :
     ∃ l, flattenTiers (ts.map (genTier s n d)) = some l ∧
       hnsActions (rewritePriorities l limit) p ≠ [] ∧
@@ -171,15 +226,13 @@ theorem flatten_verdict_partial (s : IPSets) (hs : s.wf) (hipp : s.ipportOK) (hv
   have htiers : ∀ t ∈ ts.map (genTier s n d), TierOK d t ∧ Total t := by
     intro t ht
     obtain ⟨x, hx, rfl⟩ := List.mem_map.1 ht
-    refine ⟨tierOK_generated s hs hv n hn d x.2 x.1 (hpf x hx), ?_⟩
+    refine ⟨tierOK_generated s hs hv n hn d x.2 x.1, ?_⟩
     intro q
     rw [show firstAction (genTier s n d x) q = _ from tier_first s hs hipp n hn d x.2 q x.1 (hsup x hx)]
     rfl
-  obtain ⟨l, hl, hlf⟩ := flattenTiers_sem d (ts.map (genTier s n d)) (by simpa using hne) htiers
-  refine ⟨l, hl, ?_⟩
-  obtain ⟨hg, hfa⟩ := rewritePriorities_sem l limit p
-  have : firstAction (rewritePriorities l limit) p = some (multiVerdict s d p (ts.map fun t => (t.1.map (·.2), t.2))) := by
-    rw [hfa, hlf p, mvH_generated s hs hipp n hn d p ts hne hsup]
-  exact first_match_decides _ hg p _ this
+  obtain ⟨l, hl, a, ha, hne', hall⟩ := flatten_verdict d (ts.map (genTier s n d)) (by simpa using hne) htiers limit p
+  rw [mvH_generated s hs hipp n hn d p ts hne hsup] at ha
+  simp only [Option.some.injEq] at ha
+  exact ⟨l, hl, hne', fun b hb => by rw [hall b hb, ← ha]⟩
 
 end CalicoVerif.C30
